@@ -120,6 +120,40 @@ def u_ovr_fit(h, labels, fit_intercept):
     h.observe('x', rets[0][0][0])
 
 
+def u_ovr_refit(h, labels):
+    """warm_start multiclass estimator fitted with an intercept, then refitted without: the fitted model must be the
+    per-class binary models of the LAST fit (no stale intercepts)"""
+    import skglm
+    n, p = len(labels), 2
+    X = h.mat('X', n, p)
+    y = np.array(labels)
+    A = h.real('alpha')
+    h.assume(A > 0)
+    est = skglm.SparseLogisticRegression(alpha=A, fit_intercept=True, warm_start=True)
+    rets = []
+
+    def result(k, call):
+        r = ES.sym_result(h, p + (1 if call['solver'].fit_intercept else 0), tag='c%d_' % k)
+        rets.append(r)
+        return r
+    with ES.sklearn_stubs(h):
+        with ES.intercept_solve(h, result) as cap:
+            est.fit(X, y)
+            est.fit_intercept = False
+            est.fit(X, y)
+    K = len(set(labels))
+    h.ensure('solves', len(cap.calls) == 2 * K)
+    last = rets[K:]
+    for k in range(K):
+        row = h.true()
+        for j in range(p):
+            row = h.and_(row, h.eq(est.coef_[k, j], last[k][0][j]))
+        h.ensure('coef-row-is-last-binary-model[%d]' % k, row)
+        ik = est.intercept_[k] if np.ndim(est.intercept_) else est.intercept_
+        h.ensure('no-stale-intercept[%d]' % k, h.eq(ik, 0))
+    h.observe('x', last[0][0][0])
+
+
 def u_predict_multiclass(h, labels):
     import skglm
     p, m = 2, 1
@@ -163,6 +197,8 @@ def units(tier):
         for fi in (True, False):
             us.append(Unit('C12/E/ovr-fit[labels=%s,fit_intercept=%s]' % (labels, fi), u_ovr_fit,
                            dict(labels=labels, fit_intercept=fi), wall_s=120))
+    for labels in (['a', 'b', 'c', 'a'], [5, 1, 9]):
+        us.append(Unit('C12/E/ovr-warm-refit[labels=%s]' % (labels,), u_ovr_refit, dict(labels=labels), wall_s=120))
     for labels in (['a', 'b', 'c'], [5, 1, 9]):
         us.append(Unit('C12/E/predict-multiclass[labels=%s]' % (labels,), u_predict_multiclass, dict(labels=labels), wall_s=120))
     return us
